@@ -378,7 +378,8 @@ def _fill_math(rng, comp, K):
         comp['fmt'][key] = 'dense_cp'     # the quadratic term fills column 0 whatever A's pattern is
     if comp['kind'] == 'aff' and rng.random() < K['mf']:
         comp['mf'] = True
-    if comp['kind'] == 'aff' and not comp['mf'] and rng.random() < K['approx']:
+    if comp['kind'] in ('aff', 'imp') and not comp.get('mf') and rng.random() < K['approx'] and \
+            (comp['kind'] == 'aff' or K.get('approx_imp')):
         comp['approx'] = {'method': rng.choice(['fd', 'fd', 'cs']), 'form': rng.choice(['forward', 'backward', 'central']),
                           'step': rng.choice([1e-6, 1e-5, 1e-4]), 'step_calc': rng.choice(['abs', 'rel_avg', 'rel_element'])}
 
